@@ -41,6 +41,8 @@ type Conn struct {
 	// ShortWrite[i] makes the i-th write report n-1 bytes.
 	ShortWrite map[int]bool
 	OnWrite    func(w *Write)
+	// BeforeWrite runs at the entry of every WriteTo (the schedule explorer parks the writer here).
+	BeforeWrite func()
 }
 
 func NewConn() *Conn {
@@ -62,6 +64,9 @@ func (c *Conn) ReadFrom(p []byte) (int, net.Addr, error) {
 }
 
 func (c *Conn) WriteTo(p []byte, addr net.Addr) (int, error) {
+	if c.BeforeWrite != nil {
+		c.BeforeWrite()
+	}
 	select {
 	case <-c.closed:
 		return 0, net.ErrClosed
